@@ -59,7 +59,7 @@ func c01SqlRun(r *zsim.Run) {
 	cancel()
 	benign := []error{sql.ErrNoRows, sql.ErrTxDone}
 	// most runs stay with one kind of benign outcome: one wrongly counted as a failure then has nothing to hide behind
-	focusKind, focusErr, focused := o.Intn(7), o.Intn(2), o.Intn(3) > 0
+	focusKind, focusErr, focused := o.Intn(8), o.Intn(2), o.Intn(3) > 0
 	r.Logf("focus kind=%d err=%d focused=%v", focusKind, focusErr, focused)
 	pickErr := func() error {
 		if focused {
@@ -69,7 +69,7 @@ func c01SqlRun(r *zsim.Run) {
 	}
 	for i := 0; i < 200; i++ {
 		var err error
-		kind := o.Intn(7)
+		kind := o.Intn(8)
 		if focused {
 			kind = focusKind
 		}
@@ -99,6 +99,9 @@ func c01SqlRun(r *zsim.Run) {
 			want = context.Canceled
 			var v []int
 			err = conn.QueryRowsCtx(cctx, &v, "select a from t")
+		case 7: // the body finishes the transaction itself and reports success: Transact's own Commit finds it done
+			want = sql.ErrTxDone
+			err = conn.Transact(func(s Session) error { return s.(interface{ Commit() error }).Commit() })
 		case 6: // duplicate entry: benign for the MySQL predicate
 			want = &mysql.MySQLError{Number: 1062, Message: "dup"}
 			fdb.Fail[fmt.Sprintf("exec#%d", fdbExecs(fdb))] = want
